@@ -334,20 +334,31 @@ def row_count_uses(prog, rep, pp, rule):
                 if not is_count:
                     continue
                 n += 1
-                up, ctx_ok, why = node, False, ""
-                while id(up) in parents:
-                    up = parents[id(up)]
-                    if isinstance(up, ast.Call) and dotted(up.func) in SIZE_CONTEXT_CALLS:
-                        ctx_ok, why = True, f"sizes the allocation `{dotted(up.func)}(...)`"
-                        break
-                    if isinstance(up, ast.Compare):
-                        ctx_ok, why = True, "only compared"
-                        break
-                    if isinstance(up, ast.Call) and isinstance(up.func, ast.Attribute) and up.func.attr == "reshape":
-                        ctx_ok, why = True, "reshape argument"
-                        break
-                    if isinstance(up, ast.stmt):
-                        break
+
+                def context_of(start):
+                    up = start
+                    while id(up) in parents:
+                        up = parents[id(up)]
+                        if isinstance(up, ast.Call) and dotted(up.func) in SIZE_CONTEXT_CALLS:
+                            return True, f"sizes the allocation `{dotted(up.func)}(...)`", up
+                        if isinstance(up, ast.Compare):
+                            return True, "only compared", up
+                        if isinstance(up, ast.Call) and isinstance(up.func, ast.Attribute) and up.func.attr == "reshape":
+                            return True, "reshape argument", up
+                        if isinstance(up, ast.stmt):
+                            return False, "", up
+                    return False, "", None
+
+                ctx_ok, why, stmt_ = context_of(node)
+                if not ctx_ok and isinstance(stmt_, ast.Assign) and stmt_.value is node and len(stmt_.targets) == 1 and isinstance(stmt_.targets[0], ast.Name):
+                    # bound to a local once: every use of that local must be a sizing / comparing context
+                    nm = stmt_.targets[0].id
+                    stores = [x for x in ast.walk(root) if isinstance(x, ast.Name) and x.id == nm and isinstance(x.ctx, ast.Store)]
+                    uses = [x for x in ast.walk(root) if isinstance(x, ast.Name) and x.id == nm and isinstance(x.ctx, ast.Load)]
+                    if len(stores) == 1 and uses:
+                        res = [context_of(u) for u in uses]
+                        if all(r[0] for r in res):
+                            ctx_ok, why = True, f"bound to `{nm}`, which only {res[0][1]}"
                 g = None
                 if not ctx_ok and cls is not None and cls.qual in pp.stateful:
                     ctx = pp.class_guard_context(cls)
